@@ -712,6 +712,7 @@ def shrink_case(ctx, h, model, case):
 SIG_ARGS_ITER = "argumentsObject:iterator-hides-mapped-slot-flags"
 SIG_TA_DELETE = "typedArray:delete-formats-error-message-eagerly"
 SIG_FUNC_PROTO_POS = "funcObject:prototype-key-position-depends-on-materialisation"
+SIG_THROWER_SLOPPY = "throwTypeError:does-not-throw-for-sloppy-function-receiver"
 
 
 def seq_signature(case, lines=None, dd=None, a=None, b=None):
@@ -737,6 +738,19 @@ def seq_signature(case, lines=None, dd=None, a=None, b=None):
                 and case["objs"][int(op[2][1:])][0] == "u8" and strip_impl(a[dd])[0].split(" ")[0] == "throw" \
                 and strip_model(b[dd]).split(" ")[0] == "f":
             return SIG_TA_DELETE
+    if a is not None and b is not None and lines is not None and dd is not None and dd < len(a) and dd < len(b) and dd < len(lines):
+        # %ThrowTypeError% reached as the `callee` accessor of a strict arguments object, with a sloppy ordinary function
+        # as the receiver: goja's thrower does not throw then.  Only the outcome token differs, the dumps are equal.
+        op = lines[dd].split()
+        if op[0] in ("get", "set") and len(op) >= 6 and op[3] == "scallee":
+            recv = op[5] if op[0] == "set" else op[4]
+            if recv == "=":
+                recv = op[2]
+            ia, ib = strip_impl(a[dd])[0].split(" ", 1), strip_model(b[dd]).split(" ", 1)
+            if recv[:1] == "o" and recv[1:].isdigit() and int(recv[1:]) < len(case["objs"]) \
+                    and case["objs"][int(recv[1:])][0] == "func" and any(k == "sargs" for k, _ in case["objs"]) \
+                    and ib[0] == "throw" and ia[0] != "throw" and ia[1:] == ib[1:]:
+                return SIG_THROWER_SLOPPY
     return "seq:" + "-".join(o[0] + (o[1] if o[0] not in ("frz", "seal") else "") for o in case["ops"])[:80]
 
 
@@ -771,7 +785,7 @@ def main(ctx):
     if not ok:
         # a broken theorem / tie must not take the model driver away from the search
         sh(["lake", "build", "model_c04"], cwd=LEAN, timeout=3000)
-    names = ctx.audit("GojaModel.C04.Props", expect_min=41)
+    names = ctx.audit("GojaModel.C04.Props", expect_min=48)
     ctx.audit("GojaModel.C04.PropsArray", expect_min=2)          # rests on lean/GojaModel/C07 (array abstraction)
     if have_tie and ok:
         ctx.audit("GojaModel.C04.Tie", expect_min=1)
